@@ -26,12 +26,31 @@ type OpRec struct {
 	Err      string            `json:"err"`
 }
 
+// LastUpdFact is set by Exec after a successful create/update: "eq" if the update time written back
+// into the caller's object equals the stored resource's update time, "ne" otherwise ("n/a" else).
+// Sequential drivers only.
+var LastUpdFact = "n/a"
+
+func updFact(ctx context.Context, st state.CoreState, r resource.Resource) string {
+	cur, err := st.Get(ctx, r.Metadata())
+	if err != nil {
+		return "n/a"
+	}
+
+	if r.Metadata().Updated().Equal(cur.Metadata().Updated()) {
+		return "eq"
+	}
+
+	return "ne"
+}
+
 // Exec executes one abstract request on st and returns the result projection.
 // variant perturbs spec-invisible details of how the request is formed.
 func Exec(ctx context.Context, st state.CoreState, rq Req, crs *CrMap, variant int) (cls string, pv map[string]string, out []KV, errText string) {
 	var err error
 
 	out = []KV{}
+	LastUpdFact = "n/a"
 
 	switch rq.Op {
 	case "create":
@@ -45,6 +64,7 @@ func Exec(ctx context.Context, st state.CoreState, rq Req, crs *CrMap, variant i
 		err = st.Create(ctx, r, state.WithCreateOwner(rq.Owner))
 		if err == nil {
 			out = append(out, KV{rq.K, Project(r, crs)})
+			LastUpdFact = updFact(ctx, st, r)
 		}
 	case "update":
 		r := NewRes(rq.K, rq.Obj)
@@ -65,6 +85,7 @@ func Exec(ctx context.Context, st state.CoreState, rq Req, crs *CrMap, variant i
 		err = st.Update(ctx, r, opts...)
 		if err == nil {
 			out = append(out, KV{rq.K, Project(r, crs)})
+			LastUpdFact = updFact(ctx, st, r)
 		}
 	case "destroy":
 		err = st.Destroy(ctx, rq.K.Pointer(), state.WithDestroyOwner(rq.Owner))
